@@ -233,4 +233,52 @@ def runScript : List Step → List Thm → Except RErr (List Thm)
       | .error e => .error e
       | .ok th => runScript rest (acc ++ [th])
 
+/-! ### the `theorem` rule (added for C01 with base-logic axioms; nothing above is changed) -/
+
+/-- argument of a checker step: a primitive rule's argument, or the name the `theorem` rule cites -/
+inductive ArgAx where
+  | prim (a : Arg)
+  | name (s : String)
+  deriving Repr, Inhabited
+
+/-- One checker step over a theory whose theorems are `axioms` (`Theory._check_proof_item`):
+`theorem` copies the stored (schematic) statement `get_theorem(name)` — an unknown name is
+CheckProofException("theorem not found"), premises are not looked at —, every other rule is
+`checkStep`; then `check_thm_type` as for every step. -/
+def checkStepAx (axioms : List (String × Thm)) (rule : String) (arg : ArgAx) (prems : List Thm) :
+    Except RErr Thm :=
+  if rule == "theorem" then
+    match arg with
+    | .name s =>
+      match axioms.lookup s with
+      | some th => if Thm.checkThmType th then .ok th else .error .typing
+      | none => .error .invalid
+    | .prim _ => .error .invalid
+  else
+    match arg with
+    | .prim a => checkStep rule a prems
+    | .name _ => .error .badInput
+
+structure StepAx where
+  rule : String
+  arg : ArgAx
+  prevs : List Nat
+  deriving Repr, Inhabited
+
+/-- `runScript` with the `theorem` rule (which does not resolve `prevs`) -/
+def runScriptAx (axioms : List (String × Thm)) : List StepAx → List Thm → Except RErr (List Thm)
+  | [], acc => .ok acc
+  | s :: rest, acc =>
+    if s.rule == "theorem" then
+      match checkStepAx axioms s.rule s.arg [] with
+      | .error e => .error e
+      | .ok th => runScriptAx axioms rest (acc ++ [th])
+    else
+      match lookupPrems acc s.prevs with
+      | .error e => .error e
+      | .ok prems =>
+        match checkStepAx axioms s.rule s.arg prems with
+        | .error e => .error e
+        | .ok th => runScriptAx axioms rest (acc ++ [th])
+
 end Holpy
